@@ -4,6 +4,7 @@ from __future__ import annotations
 
 import ast
 
+from sa.cfg import CFG
 from sa.classes import init_fields
 from sa.report import AnalysisError
 from sa.srcmodel import unparse, walk_no_nested, calls_in, dotted
@@ -137,6 +138,18 @@ def run_more(chk, repo, fields):
         raise AnalysisError('get_observation_expression not found')
     loops = [n for n in walk_no_nested(f.node) if isinstance(n, ast.For)]
     search = next((L for L in loops if any(isinstance(x, ast.Break) for x in ast.walk(L))), None)
+    ivar = unparse(search.target).split(',')[0].strip('( ') if search is not None else None
+    if search is None:
+        # the search may live in a helper of the module: `idx = helper(stats, dv)` whose loop returns its loop variable
+        for a in [x for x in walk_no_nested(f.node) if isinstance(x, ast.Assign) and isinstance(x.value, ast.Call)
+                  and isinstance(x.targets[0], ast.Name)]:
+            g = em.functions.get(dotted(a.value.func) or '')
+            if g is None:
+                continue
+            for L in [n for n in walk_no_nested(g.node) if isinstance(n, ast.For)]:
+                lv = {x.id for x in ast.walk(L.target) if isinstance(x, ast.Name)}
+                if any(isinstance(r, ast.Return) and isinstance(r.value, ast.Name) and r.value.id in lv for r in ast.walk(L)):
+                    search, ivar = L, a.targets[0].id
     if search is None:
         raise AnalysisError('F3: search loop for the DV statement not recognised')
 
@@ -155,7 +168,6 @@ def run_more(chk, repo, fields):
                       'split into several statements) is ignored', line=search.lineno,
                       witness='$PRED with Y = IPRED + EPS(1) followed by Y = Y*2: the observation expression, the '
                               'predictions and the gradients are those of the first statement')
-    ivar = unparse(search.target).split(',')[0].strip('( ')
     fe = [c for c in calls_in(f.node) if isinstance(c.func, ast.Attribute) and c.func.attr == 'full_expression']
     subs_loops = [L for L in loops if L is not search and any(
         isinstance(c, ast.Call) and isinstance(c.func, ast.Attribute) and c.func.attr == 'subs' for c in ast.walk(L))]
@@ -163,9 +175,7 @@ def run_more(chk, repo, fields):
     desc = ''
     for L in subs_loops:
         it = L.iter
-        if isinstance(it, ast.Call) and dotted(it.func) == 'range' and it.args and ivar in {x.id for x in ast.walk(it.args[0])
-                                                                                        if isinstance(x, ast.Name)} \
-                and descending(it):
+        if ivar in {x.id for x in ast.walk(it) if isinstance(x, ast.Name)} and descending(it):
             bounded = True
             desc = f'for {unparse(L.target)} in {unparse(it)}'
     for c in fe:
@@ -332,7 +342,9 @@ def run_f5_f7(chk, repo):
     WANT = {('lower', 'Gt'): 'positive', ('lower', 'GtE'): 'nonnegative', ('upper', 'Lt'): 'negative',
             ('upper', 'LtE'): 'nonpositive'}
     n6 = 0
-    for n in ast.walk(sf.node):
+    # the bound tests may live in a helper of the module that sf calls (its result passed as **assumptions)
+    scope = [sf.node] + [xm.functions[dotted(c.func)].node for c in calls_in(sf.node) if dotted(c.func) in xm.functions]
+    for n in [x for fn_ in scope for x in ast.walk(fn_)]:
         if isinstance(n, ast.If) and isinstance(n.test, ast.Compare) and isinstance(n.test.left, ast.Attribute) \
                 and n.test.left.attr in ('lower', 'upper') and isinstance(n.test.comparators[0], ast.Constant) \
                 and n.test.comparators[0].value == 0:
@@ -340,6 +352,9 @@ def run_f5_f7(chk, repo):
             kws = {k.arg for s_ in n.body for c in ast.walk(s_) if isinstance(c, ast.Call)
                    and (dotted(c.func) or '').endswith('Symbol') for k in c.keywords
                    if isinstance(k.value, ast.Constant) and k.value.value is True} - {'real'}
+            kws |= {k.value for s_ in n.body for d_ in ast.walk(s_) if isinstance(d_, ast.Dict)
+                    for k, v in zip(d_.keys, d_.values) if isinstance(k, ast.Constant) and isinstance(v, ast.Constant)
+                    and v.value is True} - {'real'}
             n6 += 1
             want = WANT.get(key)
             chk.instance(F6, f'if p.{key[0]} {unparse(n.test)[len("p." + key[0]):].strip()}: assumptions {sorted(kws)} (wanted {want})')
@@ -400,9 +415,17 @@ def _f8_one(chk, F8, xm, fname):
         raise AnalysisError(f'F8: pending-substitution dictionary / emitting loop of {fname} not recognised')
     L = loops[-1]
 
-    def has_subs(e):
+    from sa import reach
+    cfg = CFG(f.node)
+
+    def has_subs_direct(e):
         return any(isinstance(c, ast.Call) and isinstance(c.func, ast.Attribute) and c.func.attr == 'subs' and c.args
                    and unparse(c.args[0]) == pend for c in ast.walk(e))
+
+    def has_subs(e, at=None):
+        # local temporaries are resolved through their reaching definitions (x = e.subs(d); ...append(f(x)))
+        nid = reach.node_of(cfg, at) if at is not None else None
+        return reach.holds(cfg, nid, e, has_subs_direct) if nid is not None else has_subs_direct(e)
 
     def check_block(stmts):
         for i, s_ in enumerate(stmts):
@@ -412,7 +435,7 @@ def _f8_one(chk, F8, xm, fname):
                 continue
             if isinstance(s_, ast.Assign) and isinstance(s_.targets[0], ast.Subscript) \
                     and isinstance(s_.targets[0].value, ast.Name) and s_.targets[0].value.id == pend:
-                ok = has_subs(s_.value)
+                ok = has_subs(s_.value, s_)
                 chk.instance(F8, f'pending definition `{unparse(s_)[:70]}` has the earlier substitutions applied: {ok}')
                 if not ok:
                     chk.violation(F8, xm.rel, f.name, unparse(s_),
@@ -422,11 +445,7 @@ def _f8_one(chk, F8, xm, fname):
             if isinstance(s_, ast.Expr) and isinstance(s_.value, ast.Call) and isinstance(s_.value.func, ast.Attribute) \
                     and s_.value.func.attr == 'append' and s_.value.args:
                 a = s_.value.args[0]
-                ok = has_subs(a)
-                if not ok and isinstance(a, ast.Name):
-                    prev = [p for p in stmts[:i] if isinstance(p, ast.Assign) and any(
-                        isinstance(t, ast.Name) and t.id == a.id for t in p.targets)]
-                    ok = bool(prev) and has_subs(prev[-1].value)
+                ok = has_subs(a, s_)
                 chk.instance(F8, f'emitted `{unparse(s_)[:60]}` has the pending substitutions applied: {ok}')
                 if not ok:
                     chk.violation(F8, xm.rel, f.name, unparse(s_),
